@@ -857,3 +857,60 @@ func concatTwins(kids []V, built []any, seed, id int) {
 		}
 	}
 }
+
+
+// latin1 re-encodes a string so that every code point U+0080..U+00FF becomes the single byte of
+// that value; the result is in general not valid UTF-8. Cases keep the readable (valid) spelling
+// in their JSON and apply this at check time, so replay files stay lossless.
+func latin1(s string) string {
+	ascii := true
+	for i := 0; i < len(s); i++ {
+		if s[i] >= 0x80 {
+			ascii = false
+			break
+		}
+	}
+	if ascii {
+		return s
+	}
+	out := make([]byte, 0, len(s))
+	for _, r := range s {
+		if r >= 0x80 && r <= 0xff {
+			out = append(out, byte(r))
+		} else {
+			out = append(out, string(r)...)
+		}
+	}
+	return string(out)
+}
+
+// Latin1Keys applies latin1 to every object key of the tree; ok is false (and the tree must not
+// be used) if two keys of one object collide after the re-encoding.
+func (v V) Latin1Keys() (V, bool) {
+	switch v.K {
+	case KList:
+		out := V{K: KList, L: make([]V, len(v.L))}
+		for i, e := range v.L {
+			x, ok := e.Latin1Keys()
+			if !ok {
+				return V{}, false
+			}
+			out.L[i] = x
+		}
+		return out, true
+	case KObject:
+		out := V{K: KObject, O: make([]Pair, len(v.O))}
+		seen := map[string]bool{}
+		for i, p := range v.O {
+			k := latin1(p.K)
+			x, ok := p.V.Latin1Keys()
+			if !ok || seen[k] {
+				return V{}, false
+			}
+			seen[k] = true
+			out.O[i] = Pair{k, x}
+		}
+		return out, true
+	}
+	return v, true
+}
